@@ -182,6 +182,12 @@ var jobFileMu sync.Mutex
 // package fails a test binary in which the detector reported anything).
 var raceBins = map[string]bool{}
 
+// freshProcessPerRun: scenarios in which metacontroller's process-global state
+// matters (C20 restarts controllers: the Prometheus registry and the 20-minute
+// metrics cache of pkg/metrics live as long as the process). Their runs do not
+// share a worker process, so that a run depends on nothing but its own history.
+var freshProcessPerRun = map[string]bool{"C20": true}
+
 // raceProps: properties whose check includes a batch of runs under the race detector.
 var raceProps = map[string]bool{"C17": true}
 
@@ -546,7 +552,11 @@ func cmdRun(args []string) {
 		for r := 0; r < tc.runs; r++ {
 			all = append(all, Job{ID: r, Seed: seed, Run: r})
 		}
-		runJobs(all, 20)
+		chunk := 20
+		if freshProcessPerRun[*prop] {
+			chunk = 1
+		}
+		runJobs(all, chunk)
 	} else {
 		// fault enumeration: reference runs first, then one run per (position, kind)
 		nref := max(2, tc.runs/25)
